@@ -282,26 +282,26 @@ def gen_temperatures(rng, endpoints, n_random):
 
 
 def bins_oracle(T, e, bins):
-    """statement on one row: sum to T, filled in order up to the widths, NaN -> all NaN. Returns message or None."""
+    """statement on one row: sum to T, filled in order up to the widths, NaN -> all NaN. Returns (kind, message) or None."""
     if len(bins) != len(e) + 1:
-        return "expected %d bins, got %d" % (len(e) + 1, len(bins))
+        return "number of bins", "expected %d bins, got %d" % (len(e) + 1, len(bins))
     if T != T:
-        return None if all(b != b for b in bins) else "temperature is NaN but a bin is not"
+        return None if all(b != b for b in bins) else ("NaN temperature kept", "temperature is NaN but a bin is not")
     if any(b != b for b in bins):
-        return "a bin is NaN although the temperature is not"
+        return "NaN bin", "a bin is NaN although the temperature is not"
     s = math.fsum(bins)
     scale = max([abs(T)] + [abs(float(x)) for x in e] + [1e-300])
     tol = 8 * (np.nextafter(scale, np.inf) - scale)
     if abs(s - T) > tol:
-        return "bins sum to %r, temperature is %r" % (s, T)
+        return "bins do not sum to T", "bins sum to %r, temperature is %r" % (s, T)
     caps = [float(e[0])] + [float(b) - float(a) for a, b in zip(e, e[1:])] if e else []
     for i, c in enumerate(caps):
         if bins[i] > c:
-            return "bin %d holds %r, more than its width %r" % (i, bins[i], c)
+            return "bin over its width", "bin %d holds %r, more than its width %r" % (i, bins[i], c)
         if bins[i + 1] > 0 and bins[i] != c:
-            return "bin %d holds %r although bin %d is not full (%r of %r)" % (i + 1, bins[i + 1], i, bins[i], c)
+            return "bin filled before its predecessor", "bin %d holds %r although bin %d is not full (%r of %r)" % (i + 1, bins[i + 1], i, bins[i], c)
     if any(b < 0 for b in bins[1:]):
-        return "a bin after the first is negative"
+        return "negative bin", "a bin after the first is negative"
     return None
 
 
@@ -345,11 +345,10 @@ def stream_bins(run, only=None):
             on_edge = T in [float(x) for x in e]
             run.count(("bins", tuple(e), region, on_edge, T), True)
             run.dist("bins_region", "nan" if T != T else ("on endpoint" if on_edge else "bin %d" % region))
-            msg = bins_oracle(T, e, brow)
-            if msg:
-                run.violation({"stream": "bins", "broken": re.sub(r"[-+]?[0-9][0-9.e+-]*|nan|inf", "#", msg.split(",")[0].split(" holds")[0])[:40],
-                               "on_endpoint": on_edge, "n_endpoints": min(len(e), 2)},
-                              "C18 bin features, endpoints %s, T=%r: %s" % (e, T, msg),
+            res = bins_oracle(T, e, brow)
+            if res:
+                run.violation({"stream": "bins", "broken": res[0], "on_endpoint": on_edge},
+                              "C18 bin features, endpoints %s, T=%r: %s" % (e, T, res[1]),
                               case={"stream": "bins", "endpoints": e, "temperatures": [None if T != T else T]},
                               observation={"bins": brow}, expected="sum(bins) == T, bins filled in order up to their widths",
                               generator="c18.bins")
@@ -400,7 +399,8 @@ def stream_how(run, zones, only=None):
             seen = set(int(x) for x in how[~np.isnan(how)])
             if seen != set(range(168)):
                 run.violation({"stream": "how", "broken": "not all 168 values"},
-                              "C18 hour_of_week over a year takes %d values, not the 168 of 0..167" % len(seen),
+                              "C18 hour_of_week over a year takes %d values (min %s, max %s), not exactly 0..167"
+                              % (len(seen), min(seen, default=None), max(seen, default=None)),
                               case={"stream": "how", "zone": zone, "year": year}, observation={"values": sorted(seen)[:200]},
                               generator="c18.how")
             trip = sorted({(int(d), int(h), None if k != k else int(k)) for (m_, d, h), k in zip(lf.tolist(), how.tolist())},
@@ -477,15 +477,15 @@ def stream_occupancy(run, n, only=None):
             if T == T and others:
                 both = any(x != 0 for x in o) and any(x != 0 for x in u)
                 tot = math.fsum(o) + math.fsum(u)
-                msg = None
+                msg = kind = None
                 if both:
-                    msg = "occupied and unoccupied features are both non-zero"
+                    kind = msg = "occupied and unoccupied features are both non-zero"
                 elif not abs(tot - T) <= 1e-9 * max(1.0, abs(T)):
-                    msg = "features sum to %r, temperature is %r" % (tot, T)
+                    kind, msg = "features do not sum to T", "features sum to %r, temperature is %r" % (tot, T)
                 elif occ and any(x != 0 for x in u) or (not occ) and any(x != 0 for x in o):
-                    msg = "the features of the wrong occupancy mode are filled"
+                    kind = msg = "the features of the wrong occupancy mode are filled"
                 if msg:
-                    run.violation({"stream": "occupancy", "broken": msg[:40], "which": which},
+                    run.violation({"stream": "occupancy", "broken": kind, "which": which},
                                   "C18 %s feature processor at %s: %s" % (which, idx[i].isoformat(), msg),
                                   case={"stream": "occupancy", "seed": seed, "row": i}, observation={"occupied": o, "unoccupied": u,
                                                                                                       "temperature": T, "occupancy": occ},
@@ -493,7 +493,10 @@ def stream_occupancy(run, n, only=None):
             opt = lambda v: coq_opt(None if v != v else v, fhex)  # noqa
             rows.append("(%s, Some %s, %s, %s, %s)" % (coq_bool(others), coq_bool(occ), opt(T), coq_list([opt(x) for x in o]),
                                                        coq_list([opt(x) for x in u])))
-        terms.append("(%s, %s, %s)" % (coq_list([fhex(x) for x in eo]), coq_list([fhex(x) for x in eu]), coq_list(rows)))
+        # the keep-flag frames go to the model as they went to the processor: it selects the endpoints itself, from the
+        # candidates the translator read in the source
+        terms.append("(%s, %s, %s)" % (coq_list([coq_bool(c in eo) for c in cand]), coq_list([coq_bool(c in eu) for c in cand]),
+                                       coq_list(rows)))
         meta.append({"stream": "occupancy", "seed": seed, "which": which, "occupied_endpoints": eo, "unoccupied_endpoints": eu})
     if meta:
         run.sample(meta[0])
@@ -513,11 +516,15 @@ def own_columns(idx, zone, seg_type):
     return cols, own
 
 
-def synthetic_model(names, seg_type):
+def synthetic_model(names, seg_type, fitted=None, empty=()):
+    """one constant segment model of value 2^k per name (k = position in `names`); only the names in `fitted` get a model;
+    the names in `empty` get the parameterless model that fit_caltrack_hourly_model_segment returns for a segment without data"""
     from opendsm.eemeter.models.hourly_caltrack.segmentation import CalTRACKSegmentModel
     from opendsm.eemeter.models.hourly_caltrack.model import CalTRACKHourlyModel
     segs = [CalTRACKSegmentModel(n, None, "meter_value ~ C(hour_of_week) - 1",
-                                 {"C(hour_of_week)[%d]" % h: float(2 ** k) for h in range(168)}) for k, n in enumerate(names)]
+                                 {"C(hour_of_week)[%d]" % h: float(2 ** k) for h in range(168)}) for k, n in enumerate(names)
+            if fitted is None or n in fitted]
+    segs += [CalTRACKSegmentModel(n, None, None, None) for n in names if n in empty]
     occ = pd.DataFrame({n: [True] * 168 for n in names}, index=pd.CategoricalIndex(range(168)))
     cand = [30, 45, 55, 65, 75, 90]
     bins = pd.DataFrame({n: [False] * 6 for n in names}, index=pd.Series(cand, name="bin_endpoints"))
@@ -602,11 +609,69 @@ def stream_routing(run, zones, only=None):
     return "routing", list(uniq), list(uniq.values()), "check_prediction"
 
 
+def stream_routing_partial(run, zones, n, only=None):
+    """predict over a stretch of a few days to a few months (so that segment_time_series drops the zero-weight columns)
+    with a model that lacks some segment models: every hour is predicted by its own month's model or, when that model is
+    absent, not at all"""
+    import random
+    from opendsm.eemeter.models.hourly_caltrack.segmentation import segment_time_series
+    terms, meta = [], []
+    seeds = [only["seed"]] if only else [run.rng.randrange(10**9) for _ in range(n)]
+    for seed in seeds:
+        rng = random.Random(seed)
+        zone = rng.choice(zones)
+        fit_type = "single" if rng.random() < 0.1 else "three_month_weighted"
+        start = pd.Timestamp("2023-01-01", tz=zone) + pd.Timedelta(days=rng.randrange(0, 700))
+        idx = pd.date_range(start, periods=24 * rng.choice([1, 2, 9, 20, 35, 45, 75, 130]), freq="h")
+        month = local_fields(idx, zone)[:, 0]
+        present = sorted(set(int(m) for m in month))
+        try:
+            names, own = own_columns(idx, zone, fit_type)
+            present_own = sorted({o for o in own if o is not None})
+            drop = set(rng.sample(present_own, min(len(present_own), rng.choice([0, 1, 1, 2])))) | set(
+                rng.sample(names, min(len(names), rng.choice([0, 0, 1, 3]))))
+            fitted = [nm for nm in names if nm not in drop]
+            empty = [nm for nm in sorted(drop) if rng.random() < 0.5]      # present but without parameters (a segment that had no data)
+            model = synthetic_model(names, fit_type, fitted, empty)
+            pred = model.predict(idx, pd.Series(60.0, index=idx)).result["predicted_usage"].reindex(idx).to_numpy(dtype=float).tolist()
+        except Exception as e:  # noqa
+            run.violation({"stream": "routing_partial", "broken": "raises", "raised": type(e).__name__},
+                          "C18 CalTRACKHourlyModel.predict over part of a year raised %s: %s" % (type(e).__name__, str(e)[:160]),
+                          case={"stream": "routing_partial", "seed": seed}, generator="c18.routing_partial")
+            continue
+        by_month, reported = {}, 0
+        for i, v in enumerate(pred):
+            who = decode(v, names)
+            by_month.setdefault(int(month[i]), set()).add(who)
+            exp = own[i] if own[i] in fitted else None
+            if who != exp and reported < 2:
+                reported += 1
+                run.violation({"stream": "routing_partial", "broken": "predicted by another month's model" if who is not None
+                               else "own model exists but no prediction", "fit_type": fit_type},
+                              "C18 prediction at %s [%s] comes from %s; the hour's own month model is %s (%s)"
+                              % (idx[i].isoformat(), zone, who, own[i], "fitted" if own[i] in fitted else "absent from the model"),
+                              case={"stream": "routing_partial", "seed": seed, "hour": idx[i].isoformat(), "month": int(month[i])},
+                              observation={"predicted_by": who, "fitted": fitted, "months_in_index": present}, expected=exp,
+                              generator="c18.routing_partial")
+        run.dist("partial_index_months", len(present))
+        run.dist("partial_absent_own_models", sum(1 for o in present_own if o not in fitted))
+        for m in sorted(by_month):
+            run.count(("routing_partial", seed, m), True, n=int((month == m).sum()))
+            for who in sorted(by_month[m], key=str):
+                terms.append("(%s, %s, %s, %s, %s)" % (coq_list([zlit(x) for x in present]), coq_list([coq_string(x) for x in fitted]),
+                                                       coq_string(fit_type), zlit(m), coq_opt(who, coq_string)))
+                meta.append({"stream": "routing_partial", "seed": seed, "zone": zone, "fit_type": fit_type, "months_in_index": present,
+                             "n_fitted": len(fitted), "n_parameterless": len(empty), "month": m, "predicted_by": who})
+    if meta:
+        run.sample(meta[min(len(meta) - 1, 3)])
+    return "routing_partial", terms, meta, "check_prediction_on"
+
+
 def stream_fit(run, seed):
     """one real fit through the wrapper; every fitted segment model is then shifted by its own offset 1000*2^k
     (added to all its hour-of-week coefficients): the shift seen in an hour's prediction names the model(s) it came from"""
     from opendsm.eemeter.models.hourly_caltrack import HourlyModel, HourlyBaselineData
-    terms, meta, wterms, wmeta = [], [], [], []
+    terms, meta, wterms, wmeta, uterms, umeta = [], [], [], [], [], []
     rs = np.random.default_rng(seed)
     zone = "US/Pacific"
     idx = year_index(zone, 2023)
@@ -666,6 +731,31 @@ def stream_fit(run, seed):
                 obs = coq_list(["(%s, %s)" % (coq_string(c), qlit(w)) for c, w in sorted(rows[m].items())])
                 wterms.append("(%s, %s, %s)" % (coq_string("three_month_weighted"), zlit(m), obs))
                 wmeta.append({"stream": "fit_weights", "segment_type": "three_month_weighted", "month": m, "seed": seed})
+        # the wrapper files (n, n') of a fitted segment under a calendar month: it must be the month the segment is the own
+        # model of
+        _, own_fit = own_columns(idx, zone, "three_month_weighted")
+        metrics = hm.model_metrics
+        mnames = [str(k) for k in metrics.keys()]
+        for m in range(1, 13):
+            unc = hm._autocorr_unc_vars.get(m)
+            owns = sorted({o for o, mm in zip(own_fit, fit_month) if mm == m and o is not None})
+            if unc is None or len(owns) != 1:
+                run.violation({"stream": "fit", "broken": "no uncertainty figures for a month"},
+                              "C18 wrapper: no uncertainty figures filed under month %d" % m,
+                              case={"stream": "fit", "seed": seed, "month": m}, generator="c18.fit")
+                continue
+            same = lambda a, b: a == b or (a != a and b != b)  # noqa
+            cands = [k for k in mnames if metrics[k] is not None and same(metrics[k].observed_length, unc["n"])
+                     and same(metrics[k].n_prime, unc["n_prime"])]
+            run.count(("fit-unc", m, len(cands)), len(cands) == 1)
+            if owns[0] not in cands:
+                run.violation({"stream": "fit", "broken": "uncertainty figures of another month's model"},
+                              "C18 wrapper: month %d carries the (n, n') of %s, its own model is %s" % (m, cands, owns[0]),
+                              case={"stream": "fit", "seed": seed, "month": m}, observation={"n": unc["n"], "n_prime": unc["n_prime"]},
+                              expected=owns[0], generator="c18.fit")
+            if len(cands) == 1:
+                uterms.append("(%s, %s, %s)" % (coq_list([coq_string(k) for k in mnames]), zlit(m), coq_opt(cands[0], coq_string)))
+                umeta.append({"stream": "fit_unc", "seed": seed, "month": m, "filed_segment": cands[0]})
         ridx = year_index(zone, 2024)
         rdoy, rhod = ridx.dayofyear.values, ridx.hour.values
         rtemp = pd.Series(55 + 25 * np.sin((rdoy - 100) / 365 * 2 * np.pi) + 10 * np.sin((rhod - 9) / 24 * 2 * np.pi), index=ridx)
@@ -691,7 +781,8 @@ def stream_fit(run, seed):
     uniq = {}
     for t, mt in zip(terms, meta):
         uniq.setdefault(t, mt)
-    return [("fit", list(uniq), list(uniq.values()), "check_prediction"), ("fit_weights", wterms, wmeta, "check_weights")]
+    return [("fit", list(uniq), list(uniq.values()), "check_prediction"), ("fit_weights", wterms, wmeta, "check_weights"),
+            ("fit_unc", uterms, umeta, "check_unc")]
 
 
 # ------------------------------------------------------------------ main
@@ -730,9 +821,11 @@ CASE_TYPES = {
     "check_bins_float": "(list float * list (option float * list (option float)))%type",
     "check_bins_q": "(list Q * list (option Q * list (option Q)))%type",
     "check_how": "list (Z * Z * Z)",
-    "check_occupancy": "(list float * list float * list (bool * option bool * option float * list (option float) "
+    "check_occupancy": "(list bool * list bool * list (bool * option bool * option float * list (option float) "
                        "* list (option float)))%type",
     "check_prediction": "(string * Z * option string)%type",
+    "check_prediction_on": "(list Z * list string * string * Z * option string)%type",
+    "check_unc": "(list string * Z * option string)%type",
 }
 
 
@@ -741,6 +834,7 @@ def compare(run, stream, terms, meta, check_fn, shard):
         return
     # the case type is stated: an empty endpoint list `[]` inside a literal has no type of its own
     bad = run.coq_cases(stream, IMPORTS, "", terms, check_fn, shard=shard, case_type=CASE_TYPES[check_fn])
+    run.log("compared %s: %d cases, %s" % (stream, len(terms), "coq failed" if bad is None else "%d disagreements" % len(bad)))
     if bad is None:
         run.proof_ok = False
         return
@@ -757,6 +851,9 @@ def model_says(run, stream, mt):
             return run.coq_eval(IMPORTS, "", "segment_weights %s %s" % (coq_string(mt["segment_type"]), zlit(mt["month"])))
         if stream in ("routing", "fit"):
             return run.coq_eval(IMPORTS, "", "prediction_segment %s %s" % (coq_string("three_month_weighted"), zlit(mt["month"])))
+        if stream == "routing_partial":
+            return run.coq_eval(IMPORTS, "", "prediction_terms_on %s [] %s %s" % (
+                coq_list([zlit(x) for x in mt["months_in_index"]]), coq_string(mt["fit_type"]), zlit(mt["month"])))
     except Exception:  # noqa
         pass
     return None
@@ -772,8 +869,10 @@ def main():
         "temperature; region histogram in `distribution`); how: compute_time_features on every hour of both years per zone "
         "(distinct = zone, year, weekday, hour); occupancy: both feature processors on random lookups / endpoint subsets / "
         "temperatures (non-trivial = finite temperature); routing: CalTRACKHourlyModel.predict with twelve synthetic segment "
-        "models of value 2^k on every hour of both years per zone; fit: one fitted wrapper model, every segment model shifted by "
-        "1000*2^k, every hour of 2024" % len(ZONES))
+        "models of value 2^k on every hour of both years per zone; routing_partial: the same over random stretches of 1-130 days "
+        "(zero-weight columns dropped) with 0-4 segment models absent (distinct = seed x month); fit: one fitted wrapper model "
+        "(weights held by each WLS object vs its segmentation column on every hour, (n, n') filed per month by the wrapper), "
+        "every segment model shifted by 1000*2^k, every hour of 2024" % len(ZONES))
     run.assumptions += [
         "temperatures are finite or NaN (the code maps T = -inf to the first endpoint; infinite temperatures are outside the statement)",
         "bin endpoints are increasing (fit_temperature_bins hands over a sub-list of the sorted candidates)",
@@ -784,7 +883,11 @@ def main():
         "local month / weekday / hour of an instant are data (zoneinfo); correspondence is sampled over the zones listed",
     ]
     run.cov["trusted_base"] += [
-        "harness/translate_caltrack.py (ast extraction of the weight tables, dispatcher, month map; output shown in samples)",
+        "harness/translate_caltrack.py (ast extraction of the weight tables, dispatcher, month map, candidate endpoints, "
+        "wrapper month_dict and key expression; output shown in samples)",
+        "the reading of drop_zero_weight_segments (total weight > 0) as `some month of the index has positive weight` "
+        "(weights are 0, 1/2 or 1: C18_weights_in_0_half_1) and of model_lookup.get(...) is None as mem_str -- tied by the "
+        "routing_partial correspondence; str.replace / str.split re-specified in Model/CalTrack.v (str_replace, str_split)",
         "harness/c18.py (generators, adapters, canonicalisation, oracle)",
         "the reading of `index.month == n`, `i in months`, `weights.get(str(i), d)` as lookup_month in Model/CalTrack.v, "
         "pandas reindex/fill/merge semantics re-specified in bin_features / feature_row — tied by the correspondence only",
@@ -817,6 +920,7 @@ def main():
             only = only["first"][0]["case"]
     zones = ZONES if run.quick() else ZONES_THOROUGH
     st = (only or {}).get("stream")
+    st = {"fit_weights": "fit", "fit_unc": "fit", "bins_float": "bins", "bins_q": "bins", "tables": "weights"}.get(st, st)
     results = []
     if st in (None, "weights"):
         results.append(stream_weights(run, zones, only))
@@ -833,6 +937,9 @@ def main():
     if st in (None, "routing"):
         results.append(stream_routing(run, zones, only))
         run.log("routing done")
+    if st in (None, "routing_partial"):
+        results.append(stream_routing_partial(run, zones, run.n(40, 1500), only))
+        run.log("routing_partial done")
     if st in (None, "fit"):
         for k in range(1 if only or run.quick() else 10):
             results += stream_fit(run, (only or {}).get("seed", run.seed + k))
